@@ -1,9 +1,12 @@
-import ZV.Model.C30
+import ZV.Model.C30b
 /-! line protocol for C30
     `c30 rt  <kind> <fields>`        → `v=<0|1> <hex> ok <dump>` | `v=<0|1> <hex> err` | `panic`   (marshal, then unmarshal of the bytes;
                                        v = value inside the round-trip domain)
     `c30 un  <kind> <params> <hex>`  → `ok <dump>` | `err`                          (unmarshal of arbitrary bytes)
     `c30 pre <kind> <fields>`        → `acc=<lengths of the accepted strict prefixes, or ->` | `panic`
+    `c30 wb <clientHello fields>`    → `ok <hex>` | `panic`                          (marshalWithoutBinders)
+    `c30 ub <0|1> <fields> <binders>`→ `ok <hex> ok <dump>` | `ok <hex> err` | `panic` ([marshal;] updateBinders; marshal; unmarshal of that)
+    `c30 rm  <kind> <params> <hex>`  → `err` | `ok same=<0|1> fresh=<hex>` | `ok fresh=panic` (unmarshal, then marshal without the `raw` cache)
     fields: `name=value;…` (see tls/zv_c30_verif.go for the canonical form). -/
 namespace ZV.C30
 open ZV.TlsWire
@@ -108,9 +111,11 @@ structure Kind where
   ser : Fields → Option Bytes
   par : Fields → Bytes → Option String
   valid : Fields → Bool
+  rm : Fields → Bytes → Option (Option Bytes)
 
 def mk {α} (m : Fields → MFmt α) (ofF : Fields → α) (dump : Fields → α → String) (valid : Fields → α → Bool := fun _ _ => true) : Kind :=
-  ⟨fun f => (m f).ser (ofF f), fun f s => ((m f).par s).map (dump f), fun f => valid f (ofF f)⟩
+  ⟨fun f => (m f).ser (ofF f), fun f s => ((m f).par s).map (dump f), fun f => valid f (ofF f),
+   fun f s => remarshal (m f) s⟩
 
 def kindOf (k : String) : Option Kind :=
   match k with
@@ -191,6 +196,26 @@ def handle (args : List String) : String :=
       match k.ser f with
       | none => "panic"
       | some bs => "acc=" ++ sNatList (acceptedPrefixes (k.par f) bs)
+  | ["wb", fields] =>
+    match marshalWithoutBinders (chOf (parseFields fields)) with
+    | .ok bs => "ok " ++ toHex bs
+    | _ => "panic"
+  | ["ub", cached, fields, binders] =>
+    let new := if binders == "-" then [] else (binders.splitOn ",").map hexB
+    match updateScenario (chOf (parseFields fields)) (cached == "1") new with
+    | .ok bs =>
+      (match clientHello.par bs with
+       | none => "ok " ++ toHex bs ++ " err"
+       | some m => "ok " ++ toHex bs ++ " ok " ++ sCh m)
+    | _ => "panic"
+  | ["rm", kind, params, hex] =>
+    match kindOf kind, ofHex hex with
+    | some k, some bs =>
+      match k.rm (parseFields params) bs with
+      | none => "err"
+      | some none => "ok fresh=panic"
+      | some (some fr) => "ok same=" ++ sBool (fr == bs) ++ " fresh=" ++ toHex fr
+    | _, _ => "bad-op"
   | _ => "bad-op"
 
 end ZV.C30
